@@ -98,14 +98,15 @@ type zzTxn struct {
 }
 
 type zzWorld struct {
-	latches *Latches
-	pool    [][]byte
-	subsets [][]int // key sets a transaction may take (indices into pool)
-	single  [][]int // the single-key subsets (transactions >= 1 when oneBig is set)
-	oneBig  bool
-	txns    []*zzTxn
-	holder  map[string]int
-	maxc    map[string]uint64
+	latches    *Latches
+	pool       [][]byte
+	subsets    [][]int // key sets a transaction may take (indices into pool)
+	single     [][]int // the single-key subsets (transactions >= 1 when oneBig is set)
+	oneBig     bool
+	bothOrders bool // two-key sets are handed to genLock in either order (symbolic)
+	txns       []*zzTxn
+	holder     map[string]int
+	maxc       map[string]uint64
 	// staleOK accumulates the L3 verdicts of all returns on this path; it is
 	// asserted once at the end (one solver query per path instead of one per
 	// return per re-executed prefix). With param eager=1 every return asserts.
@@ -136,14 +137,30 @@ func zzWideTS(b uint8) uint64 {
 // zzTSBase is ComposeTS(1_700_000_000_000 ms, 0).
 const zzTSBase = uint64(1_700_000_000_000) << 18
 
-
 func zzNewWorld(latches *Latches, ntxn int) *zzWorld {
 	return zzNewWorldPool(latches, ntxn, zzParam("pool", 4))
 }
 
 func zzNewWorldPool(latches *Latches, ntxn, pool int) *zzWorld {
+	return zzNewWorldKeys(latches, ntxn, zzPool(latches, pool))
+}
+
+// zzPoolCollide: the two colliding keys plus one key of another slot.
+func zzPoolCollide(l *Latches) [][]byte {
+	pool := [][]byte{[]byte(zzCollidingKeys[0]), []byte(zzCollidingKeys[1])}
+	s := l.slotID(pool[0])
+	for c := 0; c < 256; c++ {
+		k := []byte{byte('a' + c)}
+		if len(l.slots) == 1 || l.slotID(k) != s {
+			return append(pool, k)
+		}
+	}
+	panic("zzPoolCollide: no key of another slot")
+}
+
+func zzNewWorldKeys(latches *Latches, ntxn int, keys [][]byte) *zzWorld {
 	w := &zzWorld{latches: latches, holder: map[string]int{}, maxc: map[string]uint64{}, staleOK: true, exclOK: true, unlockedOK: true}
-	w.pool = zzPool(latches, pool)
+	w.pool = keys
 	w.subsets = zzSubsets(len(w.pool), zzParam("maxkeys", 2))
 	w.single = zzSubsets(len(w.pool), 1)
 	for _, k := range w.pool {
@@ -171,6 +188,9 @@ func (w *zzWorld) zzDrawTxn(t *zzTxn) [][]byte {
 	for _, i := range sub {
 		keys = append(keys, append([]byte{}, w.pool[i]...))
 		t.keys = append(t.keys, string(w.pool[i]))
+	}
+	if w.bothOrders && len(keys) == 2 && zzChoice("keyorder", 2) == 1 {
+		keys[0], keys[1] = keys[1], keys[0]
 	}
 	return keys
 }
@@ -278,14 +298,42 @@ func ZZ_C17_steps4() {
 }
 
 func zzSteps(ntxn int, oneBig bool) *zzWorld {
+	return zzStepsOpt(ntxn, oneBig, false)
+}
+
+// zzCollidingKeys are two distinct keys with the same 32-bit murmur3 hash
+// (found by a native birthday search), hence the same slot in every Latches.
+var zzCollidingKeys = [2]string{"k033db", "k1e90e"}
+
+// ZZ_C17_steps_collide — ZZ_C17_steps over a pool that contains two keys with
+// the same full hash, with the keys of a two-key transaction handed to genLock
+// in either order (symbolic choice): the order in which a lock takes its keys
+// must not depend on the order the caller passed them in, else two
+// transactions over the same two keys wait for each other for ever.
+func ZZ_C17_steps_collide() {
+	v := zzStepsOpt(zzParam("txns", 3), false, true).zzFinish()
+	zzAssert(v.exclusive, "collide.exclusive")
+	zzAssert(v.notLocked, "collide.returned-not-locked")
+	zzAssert(v.allReturned, "collide.no-lost-wakeup")
+	zzAssert(v.ghostEmpty, "collide.ghost-empty")
+	zzAssert(v.staleExact, "collide.stale-exact")
+}
+
+func zzStepsOpt(ntxn int, oneBig, collide bool) *zzWorld {
 	nslots, pool := uint(2), zzParam("pool4", 3)
-	if !oneBig {
+	if !oneBig && !collide {
 		nslots = []uint{2, 1}[zzChoice("slots", zzParam("slotcfgs", 2))]
 		pool = zzParam("pool", 4)
 	}
 	latches := NewLatches(nslots)
 	sched := &LatchesScheduler{latches: latches}
-	w := zzNewWorldPool(latches, ntxn, pool)
+	var w *zzWorld
+	if collide {
+		w = zzNewWorldKeys(latches, ntxn, zzPoolCollide(latches))
+		w.bothOrders = true
+	} else {
+		w = zzNewWorldPool(latches, ntxn, pool)
+	}
 	w.oneBig = oneBig
 
 	next := 0
